@@ -413,8 +413,86 @@ class FoldSystem(System):
         return check_text(case, True)
 
 
+BK = ["\n", "\r", "\r\n", "\x85", "\u2028", "\u2029"]
+
+
+class BreakSystem(System):
+    """Every run of 1-3 line breaks of every kind inside every scalar style, and as entry separator."""
+
+    name = "fold-breaks"
+    description = ("values Q a BREAKS INDENT b Q for Q in {plain, ', \"} and block scalars, BREAKS over all sequences of <= 3 (thorough 4) of "
+                   "{LF, CR, CRLF, NEL, LS, PS}, optionally with a blank before/after; the same runs as separators between two entries")
+
+    def bounds(self):
+        return {"break_kinds": len(BK), "run_length": 3 if self.tier == "quick" else 4}
+
+    def alphabet(self):
+        return {"breaks": BK, "quotes": ["", "'", '"'], "headers": ["|", ">", "|-", ">+"]}
+
+    def rule(self):
+        return "every combination within the bounds; non-trivial = inside the YAML subset, or >=1 pair, or TokenizeError"
+
+    def cases(self):
+        n = 3 if self.tier == "quick" else 4
+        runs = ["".join(c) for k in range(1, n + 1) for c in itertools.product(BK, repeat=k)]
+        for br in runs:
+            for q in ("", "'", '"'):
+                for w in ("", " "):
+                    yield f"k: {q}a{w}{br} b{q}"
+                    yield f"k: {q}a{br} {w}b{q}\nz: 1"
+            for h in ("|", ">", "|-", ">+"):
+                yield f"k: {h}{br} a{br} b"
+                yield f"k: {h}\n a{br} b\nz: 1"
+            yield f"a: 1{br}b: 2{br}"
+            yield f"a: 'x'{br}b: y"
+            yield f"a: |{br} x{br} y{br}b: 2"
+            yield f"a:{br} v{br}b: \"w\"{br}"
+
+    def run(self, case):
+        return check_text(case, True)
+
+
+HEXA = "1aF-+_ g"
+
+
+class EscapeSystem(System):
+    """Numeric escapes of double-quoted scalars with every digit string over an alphabet of hex digits and look-alikes."""
+
+    name = "escapes"
+    description = ("k: \"p\\xHH q\", \\uHHHH with every digit string over {1, a, F, -, +, _, space, g}; \\UHHHHHHHH with every replacement of <= 2 "
+                   "positions of 00000041 / 0010FFFF / 00110000 by those characters; as value and as key")
+
+    def bounds(self):
+        return {"digit_alphabet": len(HEXA), "U_positions_changed": 2}
+
+    def alphabet(self):
+        return {"digits": HEXA}
+
+    def rule(self):
+        return "every combination within the bounds; non-trivial = inside the YAML subset, or >=1 pair, or TokenizeError"
+
+    def cases(self):
+        digs = ["x" + "".join(c) for c in itertools.product(HEXA, repeat=2)] + ["u" + "".join(c) for c in itertools.product(HEXA, repeat=4)]
+        for base in ("00000041", "0010FFFF", "00110000"):
+            digs.append("U" + base)
+            for i in range(8):
+                for ch in HEXA:
+                    d1 = base[:i] + ch + base[i + 1:]
+                    digs.append("U" + d1)
+                    if self.tier != "quick" or i < 2:
+                        for j in range(i + 1, 8):
+                            for ch2 in "-+_ ":
+                                digs.append("U" + d1[:j] + ch2 + d1[j + 1:])
+        for d in digs:
+            yield f'k: "p\\{d}q"'
+            yield f'"\\{d}": v'
+
+    def run(self, case):
+        return check_text(case, True)
+
+
 def systems(tier):
-    out = [FoldSystem(tier)]
+    out = [FoldSystem(tier), BreakSystem(tier), EscapeSystem(tier)]
     for name, (alpha, nq, nt, agree) in SLICES.items():
         out.append(SliceSystem(tier, name, alpha, nq if tier == "quick" else nt, agree))
     out.append(GrammarSystem(tier))
